@@ -244,6 +244,13 @@ pub fn replay_op(a: &Args) -> (bool, String, String) {
     let r = if get(a, "suite") == "shk" { op_generic::<Bls12381Shake256>(a) } else { op_generic::<Bls12381Sha256>(a) };
     match r {
         Err(p) => (true, format!("{}:{}", entry, norm_panic(&p)), format!("real {} panicked: {}", entry, p)),
-        Ok(s) => (false, format!("{}:returned", entry), format!("real {} returned normally ({})", entry, s)),
+        Ok(s) => {
+            // queries that require a refusal (e.g. malformed commitment-with-proof): success is the violation
+            if get(a, "expect_err") == "true" && s == "true" {
+                (true, format!("{}:accepted-malformed-input", entry), format!("real {} returned Ok on an input it must refuse", entry))
+            } else {
+                (false, format!("{}:returned", entry), format!("real {} returned normally ({})", entry, s))
+            }
+        }
     }
 }
